@@ -175,6 +175,8 @@ package massdb_v1
 //@   assert-at call UpdateCheckpoint#1 checkpoint-not-ahead: hmB.HashMap.checkpoint <= endPoint
 //@   assert-at call UpdateCheckpoint#1 window-was-flushed: lastFlushOK
 //@   loop y invariant map-A-read-from-its-start: y == 0 ==> rpos[bufRdA] == 4096
+//@   loop i invariant tail-zeroing-stays-inside-the-pair-buffer: 0 <= i
+//@   assert-at call ReadFull every-pair-is-read-completely-from-table-A: unbox("*bufio.Reader", arg0) == bufRdA && arr(arg1) == arr(bs) && off(arg1) == off(bs) && len(arg1) == recordSize * 2
 //@   assert-at call UpdateCheckpoint#2 final: hmB.HashMap.checkpoint == half
 //@   ensures complete: err == nil ==> mdb.HashMapB.HashMap.checkpoint == mdb.HashMapB.HashMap.volume / 2
 
